@@ -1,7 +1,7 @@
 (* C20 — Sample decoding applies exactly the declared conversions. *)
 From Coq Require Import ZArith List Lia Bool.
 Import ListNotations.
-From LX Require Import Base.IntWrap Base.ListAux Generated.Consts Generated.Tables Model.SampleLoad Proofs.SampleLoadProofs.
+From LX Require Import Base.IntWrap Base.ListAux Generated.Consts Generated.Tables Model.SampleLoad Proofs.SampleLoadProofs Generated.MixTables Model.MixKernel Proofs.MixKernelProofs Proofs.SampleKernelProofs.
 Local Open Scope Z_scope.
 
 (* Everything a successful load establishes, for every flag combination, length, loop pair,
@@ -80,6 +80,20 @@ Proof.
   intros k d Hk. exact (conv_interleave8_nth n l k d Hl Hk).
 Qed.
 Print Assumptions sign_endian_interleave.
+
+(* The guard frames exist for the mixer: the block a loaded 8-bit mono sample occupies (4 guard bytes, the data, 4 guard frames) is
+   large enough for every read of every mixing kernel of mix_all.c (Model/MixKernel.v, C14) - nearest, linear and the cubic
+   spline, which looks one frame back and two ahead - as long as the fetch positions lie between frame 0 and one frame past the
+   end, whatever step, position, gains and filter state the call has. *)
+Theorem loaded_sample_block_covers_every_kernel_read : forall skip flags s file pos nbuf s' blk pos' c a count ramp st buf,
+  load_sample skip flags s file pos nbuf = Loaded s' blk pos' ->
+  framelen_of (s_flg s) = 1 ->
+  k_sin c = false -> 0 <= s_frac st < 65536 ->
+  (forall k, 0 <= k < count -> 0 <= pos_at c a st k <= SampleLoad.s_len s' + 1) ->
+  (Z.to_nat (Z.max 0 count) * (if k_sout c then 2 else 1) <= length buf)%nat ->
+  kernel c {| m_data := blk; m_base := 4 |} a count ramp st buf <> None.
+Proof. exact loaded_8bit_mono_sample_covers_every_kernel. Qed.
+Print Assumptions loaded_sample_block_covers_every_kernel_read.
 
 (* non-vacuity: a truncated 16-bit planar-stereo delta big-endian sample with an inverted loop;
    a truncated ADPCM sample; both really produce Loaded blocks *)
